@@ -312,6 +312,7 @@ func (w *World) newInterp(cfg *Config, sol *Solver, prefix []Decision) *Interp {
 		world:    w,
 		constCache: map[*ssa.Const]Value{},
 		strCache:   map[string]StrV{},
+		bounds:     map[*Term]*ival{},
 	}
 	in.growExact = cfg.GrowExact
 	in.initSched()
